@@ -1011,5 +1011,5 @@ fn nontrivial(op: &str, args: &[&str]) -> bool {
 
 fn main() {
     harness_main(Spec { prop: "C15", gen, exec, nontrivial, hang_secs: 30,
-        rule: "integer matrices |x|<=9 as f64. exhaustive: all 2x2 over -2..2 and all 3x3 over -1..1 (det, elimination, exchange, product, solve with 1..3 columns, qr; quick: solve/qr on every 4th 3x3), 4x4 over {0,1} (all thorough / every 16th quick); families n=2..6: cond_inf<=1e4 random, row-permuted diagonally dominant, upper/lower triangular, pivot-forcing (zero/small leading entry), exactly singular, stacks [s,n,n] [s,t,n,n]; norm: every order spelling x axis spelling x keepdims on 14 fixed arrays rank<=3; malformed shapes; seeded random stream. tolerance 1e-9 relative (model vs code and residual oracles). non-trivial = solve needing a row exchange in column 0 or >=2 right-hand sides; det/qr of size>=3 or a stack; norm with explicit order/axis or rank>=2" });
+        rule: "integer matrices |x|<=9 as f64. exhaustive: all 2x2 over -2..2 and all 3x3 over -1..1 (det, elimination, exchange, product, solve with 1..3 columns, qr; quick: solve/qr on every 4th 3x3), 4x4 over {0,1} (all thorough / every 16th quick); families n=2..6: cond_inf<=1e4 random, row-permuted diagonally dominant, upper/lower triangular, pivot-forcing (zero/small leading entry), exactly singular, stacks [s,n,n] [s,t,n,n]; norm: every order spelling x axis spelling x keepdims on 14 fixed arrays rank<=3; malformed shapes; seeded random stream. robustness streams: EVERY call also on Ok(array) (bit-identical answer required); x-ops = same integer array as f64/f32/i32/i64 times an exact scale 2^+-30 2^+-40 10^+-9 10^+-12 (qr/norm also 2^+-200), model evaluated at the scaled rationals, tolerances relative to the unit of the answer (s^n det, s norm/R, sb/sa solve, 1 Q); norm of 63..4900 elements (every count mod 8, all orders, enum/&str/String spellings, axes, keepdims); n=7,8 families; singular n=2..8 in five recipes (last-pivot deficiency included); stacks with leading axes 7..40 (300 thorough); zero-length axes (det/qr/solve compared, norm of an empty array only must not panic). open: scaled solve where the absolute |det|<1e-12 test decides (fixes/C15-solve-absolute-singularity-threshold.md). tolerance 1e-9 relative (model vs code and residual oracles). non-trivial = solve needing a row exchange in column 0 or >=2 right-hand sides; det/qr of size>=3 or a stack; norm with explicit order/axis or rank>=2" });
 }
